@@ -91,8 +91,19 @@ ObjEq(md, x, y) == /\ x.tn = y.tn
                    /\ CASE md = "whole" -> x.c = y.c
                         [] md = "first" -> x.c[1] = y.c[1]
                         [] OTHER -> FALSE
-\* equals() with the expectation as the receiver: its own comparator decides for objects
-EqP(a, b) == IF a.t = "obj" THEN b.t = "obj" /\ ObjEq(a.cmp, a, b) ELSE Eq(a, b)
+\* Doubles as the C++ interface - the reference of C19 - compares them: doubles_equal(expected, actual, tolerance of the
+\* expectation).  NaN (a value or the tolerance) equals nothing; an infinity equals the same infinity; otherwise
+\* |expected - actual| <= tolerance: tolerance 0 is the exact comparison, a negative tolerance (also -inf) admits nothing -
+\* not even the same value -, +inf admits everything.  (For tolerances >= 0 this is MockValueOps!DoubleEq.)  The finite
+\* values are integers on a grid fine enough for differences below the interface's default tolerance (the harness
+\* takes one unit as 2^-10; the default 0.005 then admits exactly the differences of at most DefaultTolQ units).
+DefaultTolQ == 5
+DblEq(x, y, tol) == IF x.k = "nan" \/ y.k = "nan" \/ tol.k = "nan" THEN FALSE
+                    ELSE (x.k = "inf" /\ y.k = "inf" /\ x.neg = y.neg) \/ DiffWithin(x, y, tol)
+\* equals() with the expectation as the receiver: its own comparator decides for objects, its own tolerance for doubles
+EqP(a, b) == IF a.t = "obj" THEN b.t = "obj" /\ ObjEq(a.cmp, a, b)
+             ELSE IF a.t = "double" /\ b.t = "double" THEN DblEq(a.v, b.v, a.tol)
+             ELSE Eq(a, b)
 BindIn(repo, v) == IF v.t = "obj" THEN [t |-> "obj", tn |-> v.tn, c |-> v.c, cmp |-> CmpOf(repo, v.tn)] ELSE v
 BindOut(repo, o) == [ty |-> o.ty, data |-> o.data, cpy |-> IF o.ty = "raw" THEN "raw" ELSE CpyOf(repo, o.ty)]
 Copied(o) == IF o.cpy = "inv" THEN [i \in 1..Len(o.data) |-> 255 - o.data[i]] ELSE o.data
@@ -113,10 +124,11 @@ SameExp(e1, e2) == /\ e1.fn = e2.fn /\ e1.obj = e2.obj /\ e1.ins = e2.ins /\ e1.
                    /\ e1.ign = e2.ign /\ e1.ret = e2.ret
 
 \* two values that one actual value could both match
+\* (an over-approximation for negative tolerances, which admit nothing: it only keeps such pairs out of the domain)
 DoubleMayCoincide(x, y) ==
     /\ x.v.k # "nan" /\ y.v.k # "nan" /\ x.tol.k # "nan" /\ y.tol.k # "nan"
     /\ \/ XSame(x.v, y.v)
-       \/ x.tol.k = "inf" \/ y.tol.k = "inf"
+       \/ (x.tol.k = "inf" /\ ~x.tol.neg) \/ (y.tol.k = "inf" /\ ~y.tol.neg)
        \/ (x.v.k = "fin" /\ y.v.k = "fin" /\ Abs(x.v.q - y.v.q) <= x.tol.q + y.tol.q)
 ObjMayCoincide(x, y) == /\ x.tn = y.tn /\ x.cmp # "none" /\ y.cmp # "none" /\ x.c[1] = y.c[1]
                         /\ (x.cmp = "whole" /\ y.cmp = "whole") => x.c = y.c
